@@ -11,15 +11,18 @@
 (* value of the first gets a reference to a cell equal to the leaf of the second  *)
 (* (the sibling that a prover prunes).                                            *)
 EXTENDS MerkleProof, Dict_Pool
-CONSTANTS MaxAbsent
+CONSTANTS MaxAbsent,
+          TwoStep     \* TRUE: the dictionary handed to the prover is the tree under an earlier proof that keeps 1 or 2 of the
+                      \* keys (KeepKeysPruneSet): a partial dictionary, to be proven further
 N == 8
 KeyPool == Pool(N) \cup { <<0,1,0,0,0,0,0,0>>, <<1,1,0,0,0,0,0,0>> }
 FormSeqs == { <<"short","short","short">>, <<"long","same","short">>, <<"same","long","long">> }
-VARIABLES kset, vmode, forms, out
+VARIABLES kset, vmode, forms, keep, out
 Neighbours(S) == {p \in S \X S : p[1] # p[2] /\ SubSeq(p[1], 1, N - 1) = SubSeq(p[2], 1, N - 1)}
 Init == /\ kset \in {S \in SUBSET KeyPool : Cardinality(S) >= 1 /\ Cardinality(S) <= MaxSet}
         /\ vmode \in {"distinct", "same", "valueref"} /\ forms \in FormSeqs /\ out = "todo"
         /\ vmode = "valueref" => Neighbours(kset) # {}
+        /\ keep \in (IF TwoStep THEN {K \in SUBSET kset : Cardinality(K) \in {1, 2}} ELSE {{}})
 ValOf(k) == IF vmode = "same" THEN Val(Z(N)) ELSE Val(k)
 TableJson(T) == [i \in 1..Len(T) |-> [b |-> BitsToStr(T[i].b), x |-> T[i].x, m |-> T[i].m, r |-> [j \in 1..Len(T[i].r) |-> T[i].r[j] - 1]]]
 Vec == LET m == {<<k, ValOf(k)>> : k \in kset}
@@ -39,13 +42,25 @@ Vec == LET m == {<<k, ValOf(k)>> : k \in kset}
            absentAll == [i \in 1..na |-> absentSorted[((i - 1 + rot) % na) + 1]]
            absent == SubSeq(absentAll, 1, IF na < MaxAbsent THEN na ELSE MaxAbsent)
            D == DecEdge(T, 1, N, <<>>)
-       IN [t |-> "dict", n |-> N, cells |-> TableJson(T), roots |-> <<0>>, forms |-> forms, vmode |-> vmode,
+           Ch == [magic |-> "generic", idx |-> FALSE, crc |-> FALSE, cache |-> FALSE, size |-> 1, ob |-> 2, hashes |-> FALSE]
+           fs == KeepKeysPruneSet(T, 1, N, keep)
+           S == WithMasks(Body(Proof(T, 1, fs)))
+       IN IF keep # {} THEN
+            \* two-step: kept keys first (their proofs are judged), then the other keys (path pruned: unconstrained) and absent keys
+            LET ks == SortSeq(SetToSeq(keep), BitsLess) \o SortSeq(SetToSeq(kset \ keep), BitsLess) \o absent IN
+            [t |-> "dict", n |-> N, cells |-> TableJson(S), roots |-> <<0>>, forms |-> forms, vmode |-> vmode,
+             orig |-> TableJson(T), srcboc |-> BytesToHex(Write(Proof(T, 1, fs), <<1>>, Ch)),
+             keys |-> [i \in 1..Len(ks) |-> BitsToStr(ks[i])], exp |-> <<>>,
+             twin |-> <<fs = {}>>,
+             selfcheck |-> (D.ok /\ SourceOK(S) /\ (fs # {} => Partial(S)) /\ \A k \in keep : LET o == Lookup(S, 1, N, k) IN o.ok /\ o.found)]
+          ELSE
+          [t |-> "dict", n |-> N, cells |-> TableJson(T), roots |-> <<0>>, forms |-> forms, vmode |-> vmode,
            keys |-> [i \in 1..Len(s) |-> BitsToStr(s[i][1])] \o [i \in 1..Len(absent) |-> BitsToStr(absent[i])],
            exp |-> [i \in 1..Len(s) |-> [found |-> TRUE, v |-> BitsToStr(s[i][2])]] \o [i \in 1..Len(absent) |-> [found |-> FALSE, v |-> ""]],
            twin |-> [i \in 1..Len(s) |-> KeyClass(T, IT, 1, N, s[i][1]) # "plain"],
            selfcheck |-> (D.ok /\ D.items = items /\ LevelZero(T) /\ WellFormed(T)
                           /\ (\A i \in 1..Len(s) : LET o == Lookup(T, 1, N, s[i][1]) IN o.ok /\ o.found /\ o.v.b = s[i][2])
                           /\ (\A j \in 1..Len(absent) : LET oa == Lookup(T, 1, N, absent[j]) IN oa.ok /\ ~oa.found))]
-Next == out = "todo" /\ out' = "done" /\ UNCHANGED <<kset, vmode, forms>> /\ PrintT(<<"VEC", ToJson(Vec)>>)
-Spec == Init /\ [][Next]_<<kset, vmode, forms, out>>
+Next == out = "todo" /\ out' = "done" /\ UNCHANGED <<kset, vmode, forms, keep>> /\ PrintT(<<"VEC", ToJson(Vec)>>)
+Spec == Init /\ [][Next]_<<kset, vmode, forms, keep, out>>
 =============================================================================
